@@ -742,7 +742,15 @@ var advFamilies = []advFamily{
 	{name: "computed-attr", build: func(n, m, k int) string { return "&u = this.n + u; &u.n = 1; u" }},
 	// a computed value that belongs to an enclosing scope is evaluated on behalf of a function
 	{name: "outer-computed", avoid: "outer_computed", build: func(n, m, k int) string {
-		switch k % 4 {
+		switch k % 8 {
+		case 4: // read from two scopes below the owner, one read per call
+			return fmt.Sprintf("&u = %dd6; func g(){ return u }; func h(){ return g() }; x = 0; while 1 { x = h() }", 1+n)
+		case 5: // three scopes below
+			return fmt.Sprintf("&u = %dd6; func g(){ return u }; func h(){ return g() }; func j(){ return h() }; x = 0; while 1 { x = x + j() }", 1+n)
+		case 6: // a chain of computed values read from two scopes below
+			return fmt.Sprintf("&u = %dd6; &v = u + 1; func g(){ return v }; func h(){ y = g(); return y }; x = 0; while 1 { x = h() }", 1+n)
+		case 7: // a bounded number of reads: the run may succeed, the counter has to account for the dice
+			return fmt.Sprintf("&u = %dd1; func g(){ return u }; func h(){ return g() }; s = 0; i = 0; while i < %d { s = s + h(); i = i + 1 }; s", 1+n, 1+m%60)
 		case 0:
 			return fmt.Sprintf("&u = %dd6; func g(){ x = u }; while 1 { g() }", 1+n)
 		case 1:
